@@ -13,7 +13,7 @@ import math
 import sys
 
 from .. import chaos, gen, ref
-from ..common import Outcome, SimInterrupt, set_counter
+from ..common import Outcome, SimInterrupt, libcall, set_counter
 from ..core import REPO, ckey, digest, short
 from ..modes import Mode
 
@@ -522,10 +522,11 @@ def execute(sc):
 
     # the shared object and the user's grammar it was built from
     try:
-        user_cfg, tmap = _user_cfg(ab, pres, mode)
-        tr = tr_for(tmap)
-        snap0 = _snapshot(user_cfg)
-        sut = _build(kind, user_cfg)
+        with libcall(f"{kind}:build"):
+            user_cfg, tmap = _user_cfg(ab, pres, mode)
+            tr = tr_for(tmap)
+            snap0 = _snapshot(user_cfg)
+            sut = _build(kind, user_cfg)
         build_exc = None
     except SimInterrupt:
         raise
@@ -544,9 +545,10 @@ def execute(sc):
         chaos.begin(0, epoch=False)
         keep = _counter()
         try:
-            cfg2, tmap2 = _user_cfg(ab, pres, mode)
-            obj2 = _build(kind, cfg2)
-            r = ("ok", _canon(_do_query(kind, obj2, op, tr_for(tmap2), cfg2), mode))
+            with libcall("fresh-object"):
+                cfg2, tmap2 = _user_cfg(ab, pres, mode)
+                obj2 = _build(kind, cfg2)
+                r = ("ok", _canon(_do_query(kind, obj2, op, tr_for(tmap2), cfg2), mode))
         except SimInterrupt:
             raise
         except Exception as e:
@@ -637,7 +639,8 @@ def execute(sc):
             chaos.note_event(f"abort at line {n_abort}")
             ab_ = _Abort(n_abort)
             try:
-                st, raw = ab_.run(lambda: _do_query(kind, sut, op, tr, user_cfg))
+                with libcall(f"{kind}:{op['q']}"):
+                    st, raw = ab_.run(lambda: _do_query(kind, sut, op, tr, user_cfg))
                 got = ("ok", _canon(raw, mode)) if st == "done" else None
                 aborted = st == "aborted"
             except Exception as e:
@@ -648,7 +651,8 @@ def execute(sc):
                 last_fault_at = i
         else:
             try:
-                got = ("ok", _canon(_do_query(kind, sut, op, tr, user_cfg), mode))
+                with libcall(f"{kind}:{op['q']}"):
+                    got = ("ok", _canon(_do_query(kind, sut, op, tr, user_cfg), mode))
             except Exception as e:
                 got = ("exc", type(e).__name__, short(str(e), 160))
         # purity of the user's grammar (checked after every operation, aborted or not)
